@@ -88,3 +88,25 @@ Theorem C13_sx126x_seq_simple : forall reads p m warm,
   spi_seq (set_sleep_126 warm) reads = [[W (ds_SetSleep warm)]].
 Proof. intros. split; [apply seq_tx|]. split; [apply seq_write_payload|]. split; [apply seq_irq|]. split; [apply seq_standby|apply seq_sleep]. Qed.
 
+
+(* SX127x FIFO discipline (datasheet "Data Transmission Sequence" / reception): the pointer is programmed BEFORE the FIFO burst *)
+From LoraV Require Import Model.Sx127x Proofs.PhySeq127.
+Theorem C13_sx127x_seq_set_payload : forall p reads,
+  spi_seq (set_payload_127 p) reads =
+  [ds7_write ds7_reg_FifoAddrPtr 0; ds7_write ds7_reg_PayloadLength 0; [W [N.lor ds7_reg_Fifo 0x80]; W p];
+   ds7_write ds7_reg_PayloadLength (N.of_nat (length p) mod 256)].
+Proof. exact seq127_set_payload. Qed.
+Theorem C13_sx127x_seq_set_buffer_base : forall txb rxb reads, txb <= 255 -> rxb <= 255 ->
+  spi_seq (set_buffer_base_127 txb rxb) reads = [ds7_write ds7_reg_FifoTxBaseAddr txb; ds7_write ds7_reg_FifoRxBaseAddr rxb].
+Proof. exact seq127_set_buffer_base. Qed.
+Theorem C13_sx127x_seq_get_rx_payload : forall cfg_len buflen n a data rest, n <= buflen ->
+  spi_seq (get_rx_payload_127 false cfg_len buflen) ([n] :: [a] :: data :: rest) =
+  [ds7_read ds7_reg_RxNbBytes; ds7_read ds7_reg_FifoRxCurrentAddr; ds7_write ds7_reg_FifoAddrPtr a;
+   [W [ds7_reg_Fifo]; R (N.to_nat n)]; ds7_write ds7_reg_FifoAddrPtr 0].
+Proof. exact seq127_get_rx_payload_explicit. Qed.
+Theorem C13_sx127x_fifo_registers : 
+  s7_Register_RegFifo = ds7_reg_Fifo /\ s7_Register_RegFifoAddrPtr = ds7_reg_FifoAddrPtr /\
+  s7_Register_RegFifoTxBaseAddr = ds7_reg_FifoTxBaseAddr /\ s7_Register_RegFifoRxBaseAddr = ds7_reg_FifoRxBaseAddr /\
+  s7_Register_RegFifoRxCurrentAddr = ds7_reg_FifoRxCurrentAddr /\ s7_Register_RegRxNbBytes = ds7_reg_RxNbBytes /\
+  s7_Register_RegPayloadLength = ds7_reg_PayloadLength.
+Proof. exact fifo_registers_match. Qed.
